@@ -10,7 +10,7 @@ GEN = ['wrong_value', 'missing_execution', 'value_instead_of_error', 'error_inst
 HANG = ['deadlock', 'cancel_hangs']
 F = [
  dict(id='KF-DUP', family='dup_param', properties=['C15', 'C03', 'C01', 'C07', 'C08', 'C11', 'C12'],
-      kinds=['parallel_dependencies_merged', 'parallel_dependencies_merged_permuted', 'wrong_arg_names', 'unexpected_args',
+      kinds=['parallel_dependencies_merged', 'parallel_dependencies_merged_permuted', 'wrong_arg_names', 'unexpected_args', 'wrong_case_routed',
              'wrong_value', 'missing_execution', 'never_node_ran', 'bad_arg_exception_instance', 'unexpected_default_call',
              'missing_default_call', 'value_instead_of_error', 'error_instead_of_value', 'wrong_error'],
       mechanism='two parameters of one node bound to the same upstream node collapse into one graph edge (nx.DiGraph holds one edge '
